@@ -46,37 +46,36 @@ Proof.
   - apply IH; [|exact Hin]. intro Hf. specialize (Hnf Hf). inversion Hnf; assumption.
 Qed.
 
-(* the reachable sets, computed once by the kernel *)
-Definition FUEL : nat := 200000.
-Definition seen_of (n : nat) : list st := fst (explore FUEL true false [] [init n]).
+(* the reachable sets WITH failing operations and WITH the read/register gap, computed once by the kernel *)
+Definition FUEL : nat := 400000.
+Definition seen_of (n : nat) : list st := fst (explore FUEL false true [] [init n]).
 
-Lemma seen_facts : forall n, In n [1; 2; 3; 4] ->
-  closed true false (seen_of n) = true /\ existsb (st_eqb (init n)) (seen_of n) = true /\
-  existsb (deadlocked true) (seen_of n) = false /\ forallb structure_ok (seen_of n) = true.
-Proof. intros n [<-|[<-|[<-|[<-|[]]]]]; vm_compute; repeat split. Qed.
+Lemma seen_facts : forall n, In n [1; 2; 3] ->
+  closed false true (seen_of n) = true /\ existsb (st_eqb (init n)) (seen_of n) = true /\
+  existsb (deadlocked false) (seen_of n) = false /\ forallb structure_ok (seen_of n) = true.
+Proof. intros n [<-|[<-|[<-|[]]]]; vm_compute; repeat split. Qed.
 
 Global Opaque seen_of FUEL.
 
-Lemma runs_in_seen n sched : In n [1; 2; 3; 4] -> no_faults sched -> In (run_sched true (init n) sched) (seen_of n).
+Lemma runs_in_seen n sched : In n [1; 2; 3] -> In (run_sched false (init n) sched) (seen_of n).
 Proof.
-  intros Hn Hnf. destruct (seen_facts n Hn) as (Hc & Hi & _ & _).
+  intros Hn. destruct (seen_facts n Hn) as (Hc & Hi & _ & _).
   apply existsb_exists in Hi. destruct Hi as (s0 & Hs0 & E0). apply st_eqb_eq in E0.
-  pose proof (closed_contains_runs true false (seen_of n) Hc sched s0 (fun _ => Hnf) Hs0) as H.
-  exact (eq_ind s0 (fun x => In (run_sched true x sched) (seen_of n)) H (init n) (eq_sym E0)).
+  assert (Hnf : true = false -> no_faults sched) by (intro X; discriminate X).
+  pose proof (closed_contains_runs false true (seen_of n) Hc sched s0 Hnf Hs0) as H.
+  exact (eq_ind s0 (fun x => In (run_sched false x sched) (seen_of n)) H (init n) (eq_sym E0)).
 Qed.
 
-Theorem no_deadlock_bounded n sched :
-  In n [1; 2; 3; 4] -> no_faults sched -> deadlocked true (run_sched true (init n) sched) = false.
+Theorem no_deadlock_bounded n sched : In n [1; 2; 3] -> deadlocked false (run_sched false (init n) sched) = false.
 Proof.
-  intros Hn Hnf. pose proof (runs_in_seen n sched Hn Hnf) as Hin. destruct (seen_facts n Hn) as (_ & _ & Hd & _).
-  destruct (deadlocked true (run_sched true (init n) sched)) eqn:E; [|reflexivity].
-  assert (Ht : existsb (deadlocked true) (seen_of n) = true) by (apply existsb_exists; eexists; split; [exact Hin | exact E]).
+  intros Hn. pose proof (runs_in_seen n sched Hn) as Hin. destruct (seen_facts n Hn) as (_ & _ & Hd & _).
+  destruct (deadlocked false (run_sched false (init n) sched)) eqn:E; [|reflexivity].
+  assert (Ht : existsb (deadlocked false) (seen_of n) = true) by (apply existsb_exists; eexists; split; [exact Hin | exact E]).
   pose proof (eq_trans (eq_sym Ht) Hd) as X. discriminate X.
 Qed.
 
-Theorem structure_bounded n sched :
-  In n [1; 2; 3; 4] -> no_faults sched -> structure_ok (run_sched true (init n) sched) = true.
+Theorem structure_bounded n sched : In n [1; 2; 3] -> structure_ok (run_sched false (init n) sched) = true.
 Proof.
-  intros Hn Hnf. pose proof (runs_in_seen n sched Hn Hnf) as Hin. destruct (seen_facts n Hn) as (_ & _ & _ & Hs).
+  intros Hn. pose proof (runs_in_seen n sched Hn) as Hin. destruct (seen_facts n Hn) as (_ & _ & _ & Hs).
   rewrite forallb_forall in Hs. apply Hs. exact Hin.
 Qed.
